@@ -7,6 +7,8 @@ parsed from the documentation, operand snapshots around refusals, solo-vs-interl
 """
 import copy
 
+import numpy as np
+
 from ..core import Interp, Hooks, Violation
 from ..models.doctable import DocTable, PTYPES, WTYPES
 from .base import Scenario, solo_events, callers_of
@@ -97,6 +99,8 @@ class PtypeHooks(Hooks):
         else:
             it.probe('check:propagate')
             it.probe('prop:%s' % wt)
+            if tag.get('output_mask'):
+                it.probe('prop_with_output_mask:%s' % wt)
             if wt in ('pupil', 'image'):
                 expected = 'image' if wt == 'pupil' else 'pupil'
                 if tag.get('propagatable') and got != expected:
@@ -119,6 +123,10 @@ class PtypeHooks(Hooks):
                 it.probe('refuse_after_transition')
             if tag.get('reassigned_plane'):
                 it.probe('refuse_after_attribute_update')
+            if kind == 'mul' and not w.data:
+                it.probe('refused_on_a_dark_wavefront')
+        if kind == 'mul' and tag.get('after_propagation_same_sampling'):
+            it.probe('sampled_plane_right_after_propagation')
             if it.dig(w) != dw:
                 it.violate('C08.refusal_atomic', {'fn': fn, 'operand': 'wavefront', 'exc': type(out.exc).__name__},
                            'wavefront changed by a refused %s' % fn, i)
@@ -156,7 +164,7 @@ class PtypeScenario(Scenario):
         self.must_hit = cells + props + ['refuse_after_transition', 'class:Pupilxnone', 'class:Pupilxpupil',
                                          'class:Imagexnone', 'class:Imageximage', 'class:Tiltxpupil', 'class:Tiltximage',
                                          'class:DispersiveTiltxpupil', 'class:Rotatexpupil', 'class:Flipxpupil', 'explicit_ptype_kw',
-                                         'wavefront_constructor_arguments', 'refuse_after_attribute_update']
+                                         'wavefront_constructor_arguments', 'refuse_after_attribute_update', 'refused_on_a_dark_wavefront', 'sampled_plane_right_after_propagation']
         self.probe_names = self.must_hit + ['coldwarm_audit']
 
     @property
@@ -202,7 +210,14 @@ class PtypeScenario(Scenario):
         add('Pupil', 'PUP2', k={'amplitude': '@a0', 'pixelscale': ph['dx'], 'focal_length': ph['f'] * 1.5})
         add('Pupil', 'PUPS2', k={'focal_length': ph['f'] * 0.75})
         # the documented alias spelling of the amplitude on every class
+        add('array', 'mL', recipe={'kind': 'rect', 'shape': 'S0', 'half': [9, 0], 'dr': 0, 'dc': -1, 'degenerate_ok': True})
+        add('array', 'mR', recipe={'kind': 'rect', 'shape': 'S0', 'half': [9, 0], 'dr': 0, 'dc': 1, 'degenerate_ok': True})
+        add('Pupil', 'PUPL', k={'amplitude': '@a0', 'mask': '@mL', 'pixelscale': ph['dx'], 'focal_length': ph['f']})
+        add('Pupil', 'PUPR', k={'amplitude': '@a0', 'mask': '@mR', 'pixelscale': ph['dx'], 'focal_length': ph['f']})
         add('Pupil', 'PUPAMP', k={'amp': '@a0', 'pixelscale': ph['dx'], 'focal_length': ph['f']})
+        # image-side planes that carry the sampling a propagated wavefront will have (du / oversample)
+        add('Image', 'IMGPX1', k={'amplitude': '@a1', 'pixelscale': ph['du']})
+        add('Image', 'IMGPX2', k={'pixelscale': [ph['du'] / 2, ph['du'] / 2]})
         add('Image', 'IMGAMP', k={'amp': '@a1'})
         add('Tilt', 'TLTAMP', k={'x': 1e-6 / ph['f'], 'y': 0.0, 'amp': 0.9})
         add('Image', 'IMG', k={})
@@ -242,6 +257,11 @@ class PtypeScenario(Scenario):
         P['PUP2'] = {'pt': cls['Pupil'], 'px': dx, 'arr': True, 'shape': S0, 'fl': ph['f'] * 1.5, 'tilt': False, 'pupil': True}
         P['PUPS2'] = {'pt': cls['Pupil'], 'px': None, 'arr': False, 'shape': (), 'fl': ph['f'] * 0.75, 'tilt': False, 'pupil': True}
         P['PUPAMP'] = {'pt': cls['Pupil'], 'px': dx, 'arr': True, 'shape': S0, 'fl': ph['f'], 'tilt': False, 'pupil': True}
+        P['IMGPX1'] = {'pt': cls['Image'], 'px': (ph['du'], ph['du']), 'arr': True, 'shape': S1, 'fl': None, 'tilt': False}
+        P['IMGPX2'] = {'pt': cls['Image'], 'px': (ph['du'] / 2, ph['du'] / 2), 'arr': False, 'shape': (), 'fl': None, 'tilt': False}
+        # two stops whose masks do not overlap: a wavefront that met both carries no field at all ("dark") and keeps its type
+        P['PUPL'] = {'pt': cls['Pupil'], 'px': dx, 'arr': True, 'shape': S0, 'fl': ph['f'], 'tilt': False, 'pupil': True, 'half': 'L'}
+        P['PUPR'] = {'pt': cls['Pupil'], 'px': dx, 'arr': True, 'shape': S0, 'fl': ph['f'], 'tilt': False, 'pupil': True, 'half': 'R'}
         P['IMGAMP'] = {'pt': cls['Image'], 'px': None, 'arr': True, 'shape': S1, 'fl': None, 'tilt': False}
         P['TLTAMP'] = {'pt': cls['Tilt'], 'px': None, 'arr': False, 'shape': (), 'fl': None, 'tilt': True}
         P['IMG'] = {'pt': cls['Image'], 'px': None, 'arr': False, 'shape': (), 'fl': None, 'tilt': False}
@@ -276,7 +296,8 @@ class PtypeScenario(Scenario):
     # ---------------------------------------------------------------- model steps
     def mul_model(self, w, pid, p, new_id):
         px = p['px'] if p['px'] is not None else w['px']
-        return {'id': new_id, 't': self.doc.result(w['t'], p['pt']), 'px': px,
+        halves = set(w.get('halves', ())) | ({p['half']} if p.get('half') else set())
+        return {'id': new_id, 't': self.doc.result(w['t'], p['pt']), 'px': px, 'halves': sorted(halves), 'dark': len(halves) == 2,
                 'fl': p['fl'] if p.get('pupil') else w['fl'],
                 'arr': w['arr'] or p['arr'], 'tilt': w['tilt'] or p['tilt'],
                 'shape': p['shape'] if p['arr'] else w['shape']}
@@ -297,7 +318,7 @@ class PtypeScenario(Scenario):
         """-> (event, model of the result or None)"""
         ph = world['phys']
         inf = float('inf')
-        can = w['arr'] and w['px'] is not None and w['fl'] != inf and w['t'] in ('pupil', 'image')
+        can = w['arr'] and w['px'] is not None and w['fl'] != inf and w['t'] in ('pupil', 'image') and not w.get('dark')
         method = method or rng.choice(['propagate_dft', 'propagate_dft', 'propagate_fft'])
         if method == 'propagate_fft' and w['fl'] not in (inf, ph['f']) and w['arr']:
             method = 'propagate_dft'        # the abstract model knows the FFT grid only for the session's own focal length
@@ -342,6 +363,11 @@ class PtypeScenario(Scenario):
             if ok:
                 res = {'id': new_id, 't': 'pupil', 'px': px, 'fl': w['fl'], 'arr': True, 'tilt': False, 'shape': shape}
         tag['propagatable'] = res is not None
+        if method == 'propagate_dft' and rng.random() < 0.2 and np.ndim(k.get('shape')) == 1:
+            # an output mask only chooses which samples are evaluated; it has no say in what type comes out
+            shp_ = [int(k['shape'][0]) * k.get('oversample', 1), int(k['shape'][1]) * k.get('oversample', 1)]
+            k = dict(k, mask={'$nd': [[1.0 if (r_ + c_) % 3 else 0.0 for c_ in range(shp_[1])] for r_ in range(shp_[0])]})
+            tag['output_mask'] = True
         e = {'c': c, 'fn': method, 'a': ['@' + w['id']], 'k': k, 'id': new_id, 't': tag}
         return e, res
 
@@ -482,6 +508,16 @@ class PtypeScenario(Scenario):
             for meth2 in PROP:
                 ev2, res2 = self.prop_event(rng, world, 0, res, 'pu_%s_%s' % (meth, meth2), method=meth2)
                 events.append(ev2)
+                if res2 is not None:
+                    # straight after a propagation: planes that carry the very sampling the propagated wavefront has
+                    for pid_ in ('PUP', 'GPA', 'PUPAMP'):
+                        if self.px_ok(res2, P[pid_]):
+                            events.append({'c': 0, 'fn': 'Plane.multiply', 'a': ['@' + pid_, '@' + res2['id']], 'id': 'after_%s_%s_%s' % (meth, meth2, pid_),
+                                           't': {'after_propagation_same_sampling': True}})
+            for pid_ in ('IMGPX1', 'IMGPX2'):
+                if self.px_ok(res, P[pid_]):
+                    events.append({'c': 0, 'fn': 'Plane.multiply', 'a': ['@' + pid_, '@' + res['id']], 'id': 'after_%s_%s' % (meth, pid_),
+                                   't': {'after_propagation_same_sampling': True}})
             events.append({'c': 0, 'fn': 'Plane.multiply', 'a': ['@PUP', '@' + res['id']], 'id': 'badpx_' + meth, 't': {'px_conflict': True}})
             events.append({'c': 0, 'fn': 'w*p', 'a': ['@' + res['id'], '@PLN'], 'id': 'badpx2_' + meth, 't': {'px_conflict': True}})
             events.append({'c': 0, 'fn': 'Plane.multiply', 'a': ['@IMGA', '@' + res['id']], 'id': 'ia_' + meth})
@@ -503,6 +539,12 @@ class PtypeScenario(Scenario):
             events.append({'c': 0, 'fn': 'deepcopy', 'a': ['@' + res['id']], 'id': 'cic_' + meth, 't': {'copy': True}})
             ev2, _ = self.prop_event(rng, world, 0, dict(res, id='cic_' + meth), 'cpu_' + meth, method='propagate_dft')
             events.append(ev2)
+        # a wavefront that lost all its fields (two stops with disjoint masks) is still a pupil wavefront: same table, same refusals
+        events.append({'c': 0, 'fn': 'Plane.multiply', 'a': ['@PUPL', '@w_none'], 'id': 'dk1'})
+        events.append({'c': 0, 'fn': 'w*p', 'a': ['@dk1', '@PUPR'], 'id': 'dk2', 't': {'dark': True}})
+        for n_, pid_ in enumerate(('g_image', 'g_none', 'IMG', 'PUP', 'TLT', 'g_transform', 'PLN')):
+            events.append({'c': 0, 'fn': ['Plane.multiply', 'w*p', 'p*w', 'w*=p'][n_ % 4], 'id': 'dk_%s' % pid_,
+                           'a': (['@dk2', '@' + pid_] if n_ % 4 in (1, 3) else ['@' + pid_, '@dk2']), 't': {'dark': True}})
         events.append({'c': 0, 'fn': 'Pupil', 'id': 'pz', 'k': {'amplitude': '@a0z', 'pixelscale': world['phys']['dx']}})
         events.append({'c': 0, 'fn': 'setattr', 'a': ['@pz', 'amplitude', '@a0'], 'id': 'pzs'})
         events.append({'c': 0, 'fn': 'Plane.multiply', 'a': ['@pz', '@w_image'], 'id': 'pz_bad', 't': {'reassigned_plane': True}})
